@@ -434,6 +434,12 @@ func c20SplitSeps(v sxVal) map[string]bool {
 	return out
 }
 
+// c20Paths: unexported helpers are executed in place; exported API (the
+// validators, ParseReference, Digest) stays summarised.
+func c20Paths(fn *ssa.Function) *sxResult {
+	return sxPathsInline(fn, "c20", func(g *ssa.Function) bool { return !token.IsExported(g.Name()) })
+}
+
 func c20R3(c *Ctx) {
 	const R3 = "C20.R3.parse-validates"
 	c.Expect(R3, 12)
@@ -450,7 +456,7 @@ func c20R3(c *Ctx) {
 
 	// (a) registry.ParseReference
 	pn := FnName(PR)
-	res := sxPaths(PR)
+	res := c20Paths(PR)
 	if res.Err != "" {
 		c.Undecided(R3, pn+"|paths", PR.Pos(), res.Err)
 	}
@@ -505,7 +511,7 @@ func c20R3(c *Ctx) {
 	// (b) Repository.ParseReference
 	agg = newC19Agg(c, R3)
 	rn := FnName(RP)
-	res = sxPaths(RP)
+	res = c20Paths(RP)
 	if res.Err != "" {
 		c.Undecided(R3, rn+"|paths", RP.Pos(), res.Err)
 	}
@@ -574,7 +580,7 @@ func c20R3(c *Ctx) {
 		vn := FnName(V)
 		recv := sxParam{V.Params[0]}
 		reg := fld(recv, "Registry")
-		for _, p := range sxPaths(V).Paths {
+		for _, p := range c20Paths(V).Paths {
 			if p.Ret == nil || !sxSame(p.Ret[0], sxNil) {
 				continue
 			}
@@ -608,7 +614,7 @@ func c20R3(c *Ctx) {
 	} else {
 		vn := FnName(V)
 		recv := sxParam{V.Params[0]}
-		for _, p := range sxPaths(V).Paths {
+		for _, p := range c20Paths(V).Paths {
 			if p.Ret == nil || !sxSame(p.Ret[0], sxNil) {
 				continue
 			}
@@ -634,7 +640,7 @@ func c20R3(c *Ctx) {
 	} else {
 		vn := FnName(V)
 		recv := sxParam{V.Params[0]}
-		for _, p := range sxPaths(V).Paths {
+		for _, p := range c20Paths(V).Paths {
 			if p.Ret == nil {
 				continue
 			}
@@ -660,7 +666,7 @@ func c20R3(c *Ctx) {
 	} else {
 		vn := FnName(V)
 		recv := sxParam{V.Params[0]}
-		for _, p := range sxPaths(V).Paths {
+		for _, p := range c20Paths(V).Paths {
 			if p.Ret == nil {
 				continue
 			}
@@ -684,7 +690,7 @@ func c20R3(c *Ctx) {
 	} else {
 		sn := FnName(S)
 		recv := sxParam{S.Params[0]}
-		for _, p := range sxPaths(S).Paths {
+		for _, p := range c20Paths(S).Paths {
 			if p.Ret == nil {
 				continue
 			}
